@@ -53,6 +53,77 @@ def antitone_spot(chk, r, n_pops):
     chk.count("antitone_pops", n_pops)
 
 
+def eff_np(pop, b0, b):
+    """ESS/N of the incremental weights exp((b-b0)(log L + log pi - log q)), computed independently of the library"""
+    lw = pop["ll"] + pop["lp"] - pop["lq"]
+    with np.errstate(all="ignore"):
+        a = (b - b0) * lw
+        a = np.where(np.isnan(a), -np.inf, a)
+        m = np.max(a)
+        if not np.isfinite(m):
+            return 0.0
+        u = np.exp(a - m)
+    return float(u.sum() ** 2 / (u ** 2).sum() / len(u))
+
+
+def gen_run_cfg(r, i):
+    """whole adaptive runs: the step rule as the LOOP uses it (options assigned by `sample()`, history present, every iteration)"""
+    cfg = {"seed": int(r.integers(1, 10000)), "n_samples": int(r.choice([16, 32])), "dims": int(r.choice([1, 2])), "kernel_steps": 2,
+           "like_width": float(r.choice([0.1, 0.3, 0.6])), "sampler": "minipcn_smc"}
+    m = i % 4
+    if m == 0:      # ramped target with a non-linear rate
+        cfg.update(target_efficiency=(float(r.choice([0.15, 0.3])), float(r.choice([0.7, 0.9]))), target_efficiency_rate=float(r.choice([0.25, 0.5, 2.0, 3.0])))
+    elif m == 1:    # a zero-likelihood region holding more than 1 - target of the proposal mass: the first step is the smallest
+                    # resolvable one, after resampling the full step meets the target (step ratio ~ 1e6)
+        cfg.update(like_cut=float(r.choice([0.3, 0.6])), prop_mu=0.0, prop_sigma=2.0, like_center=1.5, like_width=1.0)
+    elif m == 2:
+        cfg.update(min_step=float(r.choice([0.02, 0.2])))
+    return cfg
+
+
+def check_runs(chk, cfgs, tol=1e-6):
+    from .. import smcrun
+
+    for cfg in cfgs:
+        res = smcrun.run_smc(cfg, watchdog_iters=300)
+        chk.count("run-level")
+        chk.case(None, json.dumps(cfg))
+        if smcrun.collapsed_population(res) or res["status"] != "done":
+            chk.count("run-level:not_finished")
+            continue
+        full = res["cfg"]
+        rec = c06.record_run(res)
+        betas = [0.0] + rec["beta"]
+        te = full["target_efficiency"]
+        for t in range(len(rec["beta"])):
+            pop, b0, b1 = rec["pops"][t], betas[t], betas[t + 1]
+            target = te if isinstance(te, float) else te[0] + (te[1] - te[0]) * b0 ** full["target_efficiency_rate"]
+            case = {"level": "run", "cfg": cfg, "iteration": t + 1}
+            sig = {"level": "run"}
+            e_full, e1 = eff_np(pop, b0, 1.0), eff_np(pop, b0, b1)
+            floor = full["min_step"] is not None and abs(b1 - min(1.0, b0 + full["min_step"])) < 1e-12
+            if e_full >= target + 1e-7:
+                chk.count("run-level:full_step_feasible")
+                if b1 != 1.0:
+                    chk.fail("full step taken when it meets the target", case,
+                             f"beta {b0} -> {b1}: ESS/N at 1 is {e_full:.6f} >= target in force {target:.6f}", {**sig, "clause": "full"})
+                continue
+            if floor or b1 == 1.0 and e_full >= target - 1e-7:
+                chk.count("run-level:floor_or_edge")
+                continue
+            if eff_np(pop, b0, min(1.0, b0 + tol)) < target - 1e-7:
+                chk.count("run-level:no_resolvable_step")      # the smallest resolvable step is taken; nothing to be maximal about
+                continue
+            chk.count("run-level:ess_limited")
+            if e1 < target - 1e-6:
+                chk.fail("ESS at the new temperature meets the target", case,
+                         f"beta {b0} -> {b1}: ESS/N {e1:.6f} < target in force {target:.6f} (lo + (hi-lo) beta_prev^rate)", {**sig, "clause": "meets"})
+            e2 = eff_np(pop, b0, min(1.0, b1 + 4 * tol))
+            if e2 >= target + 1e-6 and b1 < 1.0:
+                chk.fail("step is maximal within the tolerance", case,
+                         f"beta {b0} -> {b1}: ESS/N at beta + 4 tol is still {e2:.6f} >= target in force {target:.6f}", {**sig, "clause": "maximal"})
+
+
 def run(chk: core.Check):
     r = np.random.default_rng(chk.seed + 7007)
     quick = chk.tier == "quick"
@@ -64,6 +135,7 @@ def run(chk: core.Check):
     for i in range(0, len(units), 400):
         c06.check_units(chk, units[i:i + 400], c07=True)
     antitone_spot(chk, r, 100 if quick else 5000)
+    check_runs(chk, [gen_run_cfg(r, i) for i in range(24 if quick else 400)])
     chk.extra["ess_limited_cases"] = chk.distribution.get("c07:ess_limited", 0)
 
     def search():
@@ -76,4 +148,15 @@ def run(chk: core.Check):
     return search
 
 
-replay = c06.replay
+def replay(chk: core.Check, path: str) -> int:
+    doc = json.loads(open(path).read())
+    p = doc["payload"]
+    cases = [p["case"]] if "case" in p else [d["case"] for d in p.get("correspondence", [])]
+    runs = [dict(c["cfg"]) for c in cases if c.get("level") == "run" and "iteration" in c]
+    if runs:
+        check_runs(chk, runs)
+        for f in chk.failures:
+            print("FAIL", f["clause"], f["detail"])
+        print(f"replayed {len(runs)} run(s): {len(chk.failures)} oracle failure(s)")
+        return 1 if chk.failures else 0
+    return c06.replay(chk, path)
